@@ -597,8 +597,12 @@ class Program:
             fn = call_name(node)
             if fn in ("Struct", "struct.Struct") and node.args:
                 return ("Struct", ev(node.args[0]))
-            if fn in ("bidict", "dict", "tuple", "frozenset", "set", "list") and len(node.args) == 1:
+            if fn in ("bidict", "dict", "tuple", "frozenset", "set", "list", "np.array", "numpy.array", "np.asarray") and len(node.args) >= 1:
                 return ev(node.args[0])
+            if fn in ("np.sqrt", "math.sqrt", "sqrt", "numpy.sqrt") and len(node.args) == 1:
+                return float(ev(node.args[0])) ** 0.5
+            if fn in ("float", "int") and len(node.args) == 1:
+                return (float if fn == "float" else int)(ev(node.args[0]))
         raise AnalysisError(f"not a literal: {short(node)}")
 
     def enum_members(self, ci: ClassInfo) -> dict[str, object]:
